@@ -31,11 +31,13 @@ Proof.
   apply andb_prop in He as [A B]. apply Nat.eqb_eq in A, B. destruct p, x; simpl in *; subst; auto.
 Qed.
 
-Definition closed (m1 m2 : nfm) (R : list (nat * nat)) : bool :=
+(** closed under the steps on the symbols of [ss] (all 257 symbols, or the 256 bytes for parsers without end()) *)
+Definition closed_on (ss : list sym) (m1 m2 : nfm) (R : list (nat * nat)) : bool :=
   forallb (fun pq => forallb (fun s =>
      match tmatch (m1 (fst pq) s) (m2 (snd pq) s) with
      | Some succs => forallb (fun p => memp p R) succs
-     | None => false end) all_syms) R.
+     | None => false end) ss) R.
+Definition closed : nfm -> nfm -> list (nat * nat) -> bool := closed_on all_syms.
 
 Section Sound.
 Variable D : Type.
@@ -103,6 +105,36 @@ Proof.
       destruct l1, l2; auto. { apply in_or_app; auto. } destruct HL as [? [? HL]]. repeat split; auto. intros Hc. apply in_or_app; auto.
 Qed.
 
+Theorem bisim_strict_sound_on : forall ss m1 m2 R, closed_on ss m1 m2 R = true ->
+  forall n input, (forall s, In s input -> In s ss) ->
+  forall q1 q2 x, In (q1, q2) R ->
+  match run m1 n q1 input x, run m2 n q2 input x with
+  | Some a, Some b => a = b
+  | _, _ => False end.
+Proof.
+  intros ss m1 m2 R HC. induction n as [|n IH]; intros input Hs q1 q2 x HR; cbn [run]; auto.
+  destruct input as [|s rest]; auto.
+  unfold closed_on in HC. rewrite forallb_forall in HC. pose proof (HC _ HR) as HX. cbn [fst snd] in HX.
+  rewrite forallb_forall in HX. specialize (HX s (Hs s (or_introl eq_refl))).
+  destruct (tmatch (m1 q1 s) (m2 q2 s)) as [succs|] eqn:E; try discriminate.
+  pose proof (tmatch_eval _ _ _ s x E) as H.
+  destruct (eval D exec evalt (m1 q1 s) s x) as [[[e1 l1] x1]|]; destruct (eval D exec evalt (m2 q2 s) s x) as [[[e2 l2] x2]|]; try contradiction.
+  destruct H as [? [? H]]; subst. rewrite forallb_forall in HX.
+  destruct l1 as [a|r1 a y1], l2 as [b|r2 b y2]; try contradiction.
+  - apply HX in H. apply memp_in in H.
+    assert (Hs' : forall s0, In s0 rest -> In s0 ss) by (intros; apply Hs; right; auto).
+    specialize (IH rest Hs' a b x2 H).
+    destruct (run m1 n a rest x2), (run m2 n b rest x2); try contradiction. subst; auto.
+  - destruct H as [? [? H]]; subst. destruct (continues r2) eqn:Ec; auto.
+    specialize (H eq_refl). apply HX in H. apply memp_in in H.
+    destruct y2.
+    + assert (Hs' : forall s0, In s0 rest -> In s0 ss) by (intros; apply Hs; right; auto).
+      specialize (IH rest Hs' a b x2 H).
+      destruct (run m1 n a rest x2), (run m2 n b rest x2); try contradiction. subst; auto.
+    + specialize (IH (s :: rest) Hs a b x2 H).
+      destruct (run m1 n a (s :: rest) x2), (run m2 n b (s :: rest) x2); try contradiction. subst; auto.
+Qed.
+
 Theorem bisim_strict_sound : forall m1 m2 R, closed m1 m2 R = true ->
   forall n input, (forall s, In s input -> (s <= 256)%N) ->
   forall q1 q2 x, In (q1, q2) R ->
@@ -110,33 +142,25 @@ Theorem bisim_strict_sound : forall m1 m2 R, closed m1 m2 R = true ->
   | Some a, Some b => a = b
   | _, _ => False end.
 Proof.
-  intros m1 m2 R HC. induction n as [|n IH]; intros input Hs q1 q2 x HR; cbn [run]; auto.
-  destruct input as [|s rest]; auto.
-  unfold closed in HC. rewrite forallb_forall in HC. pose proof (HC _ HR) as HX. cbn [fst snd] in HX.
-  rewrite forallb_forall in HX. specialize (HX s (in_all_syms s (Hs s (or_introl eq_refl)))).
-  destruct (tmatch (m1 q1 s) (m2 q2 s)) as [succs|] eqn:E; try discriminate.
-  pose proof (tmatch_eval _ _ _ s x E) as H.
-  destruct (eval D exec evalt (m1 q1 s) s x) as [[[e1 l1] x1]|]; destruct (eval D exec evalt (m2 q2 s) s x) as [[[e2 l2] x2]|]; try contradiction.
-  destruct H as [? [? H]]; subst. rewrite forallb_forall in HX.
-  destruct l1 as [a|r1 a y1], l2 as [b|r2 b y2]; try contradiction.
-  - apply HX in H. apply memp_in in H.
-    assert (Hs' : forall s0, In s0 rest -> (s0 <= 256)%N) by (intros; apply Hs; right; auto).
-    specialize (IH rest Hs' a b x2 H).
-    destruct (run m1 n a rest x2), (run m2 n b rest x2); try contradiction. subst; auto.
-  - destruct H as [? [? H]]; subst. destruct (continues r2) eqn:Ec; auto.
-    specialize (H eq_refl). apply HX in H. apply memp_in in H.
-    destruct y2.
-    + assert (Hs' : forall s0, In s0 rest -> (s0 <= 256)%N) by (intros; apply Hs; right; auto).
-      specialize (IH rest Hs' a b x2 H).
-      destruct (run m1 n a rest x2), (run m2 n b rest x2); try contradiction. subst; auto.
-    + specialize (IH (s :: rest) Hs a b x2 H).
-      destruct (run m1 n a (s :: rest) x2), (run m2 n b (s :: rest) x2); try contradiction. subst; auto.
+  intros m1 m2 R HC n input Hs. apply (bisim_strict_sound_on all_syms m1 m2 R HC n input).
+  intros s Hin. apply in_all_syms. apply Hs. exact Hin.
 Qed.
 End Sound.
 
 (** the instance used by the checks: two exported machines, from their start states *)
-Definition dfa_bisim_check (d1 d2 : dfa) (R : list (nat * nat)) : bool :=
-  memp (d_start d1, d_start d2) R && closed (step_tree d1) (step_tree d2) R.
+Definition dfa_bisim_check_on (ss : list sym) (d1 d2 : dfa) (R : list (nat * nat)) : bool :=
+  memp (d_start d1, d_start d2) R && closed_on ss (step_tree d1) (step_tree d2) R.
+Definition dfa_bisim_check : dfa -> dfa -> list (nat * nat) -> bool := dfa_bisim_check_on all_syms.
+
+Theorem dfa_bisim_sound_on ss d1 d2 R : dfa_bisim_check_on ss d1 d2 R = true ->
+  forall D exec evalt n input, (forall s, In s input -> In s ss) -> forall x,
+  match run D exec evalt (step_tree d1) n (d_start d1) input x, run D exec evalt (step_tree d2) n (d_start d2) input x with
+  | Some a, Some b => a = b
+  | _, _ => False end.
+Proof.
+  intros H D exec evalt n input Hs x. unfold dfa_bisim_check_on in H. apply andb_prop in H as [H1 H2].
+  apply (bisim_strict_sound_on D exec evalt ss _ _ R H2 n input Hs). apply memp_in; auto.
+Qed.
 
 Theorem dfa_bisim_sound d1 d2 R : dfa_bisim_check d1 d2 R = true ->
   forall D exec evalt n input, (forall s, In s input -> (s <= 256)%N) -> forall x,
@@ -144,6 +168,6 @@ Theorem dfa_bisim_sound d1 d2 R : dfa_bisim_check d1 d2 R = true ->
   | Some a, Some b => a = b
   | _, _ => False end.
 Proof.
-  intros H D exec evalt n input Hs x. unfold dfa_bisim_check in H. apply andb_prop in H as [H1 H2].
-  apply (bisim_strict_sound D exec evalt _ _ R H2 n input Hs). apply memp_in; auto.
+  intros H D exec evalt n input Hs x. apply (dfa_bisim_sound_on all_syms d1 d2 R H D exec evalt n input).
+  intros s Hin. apply in_all_syms. apply Hs. exact Hin.
 Qed.
